@@ -30,7 +30,7 @@ const readTimeout = time.Second
 type Case struct {
 	Engine   string   `json:"engine"`
 	Balancer string   `json:"balancer"`
-	Backends []string `json:"backends"` // per endpoint outcome: ok | s500 | s404 | rst-mid | stall-mid | rst0 | refuse
+	Backends []string `json:"backends"` // per endpoint outcome: ok | s500 | s404 | rst-mid | stall-mid | close-mid | rst0 | refuse
 	Clients  int      `json:"clients"`
 	PerCli   int      `json:"per_client"`
 	Route    string   `json:"route"`  // proxy | anthropic-translated | anthropic-passthrough
@@ -70,11 +70,14 @@ func scriptFor(o, id, route string, stream bool) backend.Script {
 		return full(404, `{"error":{"message":"nope","type":"not_found"}}`)
 	case "rst0":
 		return backend.Script{Steps: []backend.Step{{Op: "rst"}}}
-	case "rst-mid", "stall-mid":
+	case "rst-mid", "stall-mid", "close-mid":
 		hs := [][2]string{{"X-Backend-Id", id}, {"Content-Type", ct}, {"Content-Length", fmt.Sprint(len(okBody) + 500)}, {"Connection", "close"}}
 		s := backend.Script{Steps: []backend.Step{{Op: "head", Status: 200, Headers: hs}, {Op: "raw", Raw: okBody[:len(okBody)/2]}, {Op: "pause", Ms: 20}}}
 		if o == "rst-mid" {
 			s.Steps = append(s.Steps, backend.Step{Op: "rst"})
+		} else if o == "close-mid" {
+			// an orderly close short of the announced Content-Length
+			s.Steps = append(s.Steps, backend.Step{Op: "close"})
 		} else {
 			s.Steps = append(s.Steps, backend.Step{Op: "stall", Ms: int((readTimeout + 4*time.Second).Milliseconds())})
 		}
@@ -274,7 +277,7 @@ func runCase(c Case) []ev.Violation {
 		if o == "refuse" || o == "rst0" {
 			hasFailover = true
 		}
-		if o == "rst-mid" || o == "stall-mid" {
+		if o == "rst-mid" || o == "stall-mid" || o == "close-mid" {
 			hasMid = true
 		}
 	}
@@ -318,7 +321,7 @@ func runCase(c Case) []ev.Violation {
 	}
 	anyFailing := false
 	for _, o := range c.Backends {
-		if o == "rst0" || o == "rst-mid" || o == "stall-mid" {
+		if o == "rst0" || o == "rst-mid" || o == "stall-mid" || o == "close-mid" {
 			anyFailing = true
 		}
 	}
@@ -412,7 +415,7 @@ func runCase(c Case) []ev.Violation {
 	return vs
 }
 
-var outcomes = []string{"ok", "ok", "s500", "s404", "rst-mid", "stall-mid", "rst0", "refuse"}
+var outcomes = []string{"ok", "ok", "s500", "s404", "rst-mid", "stall-mid", "close-mid", "rst0", "refuse"}
 
 func genCase(t *rapid.T) Case {
 	c := Case{
@@ -428,7 +431,7 @@ func genCase(t *rapid.T) Case {
 		// the interesting shape: a failover-inducing endpoint, a mid-stream failing one and (usually) a working one
 		c.Backends = []string{
 			rapid.SampledFrom([]string{"refuse", "rst0"}).Draw(t, "failover"),
-			rapid.SampledFrom([]string{"rst-mid", "stall-mid", "rst-mid"}).Draw(t, "mid"),
+			rapid.SampledFrom([]string{"rst-mid", "stall-mid", "rst-mid", "close-mid"}).Draw(t, "mid"),
 			rapid.SampledFrom([]string{"ok", "ok", "s500", "s404"}).Draw(t, "third"),
 		}
 		c.Backends = rapid.Permutation(c.Backends).Draw(t, "order")
@@ -452,7 +455,7 @@ var _ = strings.Join
 
 func TestC19(t *testing.T) {
 	defer rig.StopAll()
-	rec.SetRule("workloads of 1..64 concurrent clients x 1..6 requests through the full stack; every endpoint (<=3) has a fixed scripted outcome {ok, 500, 404, reset mid-body, stall mid-body, reset before headers, refuse}; proxy, Anthropic translated and passthrough routes (stream on/off), 3 balancers, 2 engines, optional client aborts. Gauges are sampled during the run and at quiescence; collector (global and per endpoint), engine and translator counters are compared as deltas with the harness's own tally of client observations and backend-side attempts. Sub-check 'inflight': 1..64 simultaneous clients against never-seen endpoints that are dead (refuse / reset before any byte) or hold the request until released; once all requests are parked the gauges must be exact (hold = requests parked there, dead = 0). non-trivial = a failover-inducing backend and a mid-stream failing backend among >=8 concurrent clients; distinct by workload")
+	rec.SetRule("workloads of 1..64 concurrent clients x 1..6 requests through the full stack; every endpoint (<=3) has a fixed scripted outcome {ok, 500, 404, reset mid-body, stall mid-body, close mid-body (short of Content-Length), reset before headers, refuse}; proxy, Anthropic translated and passthrough routes (stream on/off), 3 balancers, 2 engines, optional client aborts. Gauges are sampled during the run and at quiescence; collector (global and per endpoint), engine and translator counters are compared as deltas with the harness's own tally of client observations and backend-side attempts. Sub-check 'inflight': 1..64 simultaneous clients against never-seen endpoints that are dead (refuse / reset before any byte) or hold the request until released; once all requests are parked the gauges must be exact (hold = requests parked there, dead = 0). non-trivial = a failover-inducing backend and a mid-stream failing backend among >=8 concurrent clients; distinct by workload")
 	rec.Assume("per-model counters are not recorded anywhere in the request path (RecordModelRequest has no caller), so they are trivially conserved and not judged")
 	if ev.Replay(t, rec, "workload", runCase) || ev.Replay(t, rec, "inflight", runFlight) {
 		return
